@@ -7,7 +7,6 @@ import (
 	"encoding/json"
 	"fmt"
 	"strings"
-	"time"
 
 	"gopkg.in/typ.v4/sync2"
 
@@ -23,7 +22,7 @@ type Caller struct {
 	Again int   `json:"again"`           // extra Do calls afterwards by the same task
 	Panic bool  `json:"panic,omitempty"` // fault: this caller's function panics instead of returning
 	Nil   bool  `json:"nil,omitempty"`   // this caller passes a nil function
-	Sleep int64 `json:"sleep,omitempty"` // virtual nanoseconds this caller's function sleeps: a slow action
+	Sleep int64 `json:"sleep,omitempty"` // a slow action: this many extra scheduling points inside this caller's function
 	On    int   `json:"on,omitempty"`    // with two Once values: which one this caller uses
 	Nest  bool  `json:"nest,omitempty"`  // with two Once values: this caller's function calls Do on the other one
 }
@@ -75,7 +74,7 @@ func (H) Generate(r *simrt.Rand, tier string) any {
 	for i := 0; i < n; i++ {
 		c := Caller{Inner: r.Intn(4)}
 		if r.Intn(6) == 0 {
-			c.Sleep = []int64{int64(time.Millisecond), int64(time.Second)}[r.Intn(2)]
+			c.Sleep = int64(100 + r.Intn(300)) // scheduling points the action takes
 		}
 		if s.Two {
 			c.On = r.Intn(2)
@@ -182,10 +181,12 @@ func (H) Execute(scAny any, cfg simrt.Config, st *core.Stats) (*simrt.Outcome, *
 		invoked[k] = make([]int, nf)
 		nilInvoked[k] = make([]int, nf)
 	}
-	var effect [2]int // plain: written as the last statement of the action
+	var effect [2]int      // plain: written as the last statement of the action
+	var panickedIn [2]bool // the function invoked on this value panicked
 	type tagged struct {
-		once int
-		res  result
+		once  int
+		res   result
+		nilFn bool // the call passed a nil function
 	}
 	results := make([][]tagged, len(sc.Callers))
 	cfg.StopWhenClientsDone = true // goroutines of the implementation itself (none on the pinned tree) do not keep a run alive
@@ -196,11 +197,21 @@ func (H) Execute(scAny any, cfg simrt.Config, st *core.Stats) (*simrt.Outcome, *
 		defer func() {
 			if p := recover(); p != nil {
 				if _, ours := p.(actionPanic); !ours {
-					if e, isErr := p.(error); !(isNil && isErr && strings.Contains(e.Error(), "nil pointer dereference")) {
+					e, isErr := p.(error)
+					switch {
+					case isNil && isErr && strings.Contains(e.Error(), "nil pointer dereference"):
+						// this caller's nil function was the one chosen: the invocation panics
+						nilInvoked[k][who]++
+					case isNil:
+						// a nil function refused up front, with a panic of the implementation's
+						// own: the statement does not say what Do(nil) does; no invocation
+					case panickedIn[k]:
+						// the one invocation panicked and this Do call panics with something
+						// else than the value it panicked with (wrapped, or a later caller told
+						// that the action had panicked): what Do does then is not in the statement
+					default:
 						panic(p)
 					}
-					// this caller's nil function was the one chosen: the invocation panics
-					nilInvoked[k][who]++
 				}
 				res.panicked = true
 			}
@@ -256,11 +267,16 @@ func (H) Execute(scAny any, cfg simrt.Config, st *core.Stats) (*simrt.Outcome, *
 						simrt.Yield()
 					}
 					if c.Sleep > 0 {
-						// a slow action (I/O, a long computation): virtual time passes only
-						// when every other task is waiting too - or spinning, which a waiter
-						// may do for a while but not instead of waiting
+						// a slow action: hundreds of scheduling points long, so that a waiter
+						// which polls a bounded number of times runs out of patience while
+						// the action is still under way. (Not a sleep on the virtual clock:
+						// that clock only moves when nobody can run, and an implementation
+						// whose waiters poll without bound is legal - it would keep the clock,
+						// and with it the sleeper, standing still for ever.)
 						simrt.Count("fault.slow_action", 1)
-						simrt.Sleep(time.Duration(c.Sleep))
+						for j := int64(0); j < c.Sleep; j++ {
+							simrt.Yield()
+						}
 					}
 					if sc.Two && c.Nest && k == 0 {
 						// the action itself uses the other Once value (an initialiser that
@@ -272,10 +288,11 @@ func (H) Execute(scAny any, cfg simrt.Config, st *core.Stats) (*simrt.Outcome, *
 							simrt.Yield()
 							effect[1] = me + 1
 						})
-						results[i] = append(results[i], tagged{1, nr})
+						results[i] = append(results[i], tagged{1, nr, false})
 					}
 					if c.Panic {
 						simrt.Count("fault.action_panics", 1)
+						panickedIn[k] = true
 						panic(actionPanic{})
 					}
 					effect[k] = i + 1
@@ -283,7 +300,8 @@ func (H) Execute(scAny any, cfg simrt.Config, st *core.Stats) (*simrt.Outcome, *
 				for rep := 0; rep <= c.Again; rep++ {
 					simrt.Yield()
 					res := do(k, i, c.Nil, body)
-					results[i] = append(results[i], tagged{k, res})
+					simrt.Stamp() // a call has returned: progress, for the no-progress rule
+					results[i] = append(results[i], tagged{k, res, c.Nil})
 				}
 			})
 		}
@@ -342,6 +360,9 @@ func (H) Execute(scAny any, cfg simrt.Config, st *core.Stats) (*simrt.Outcome, *
 					continue
 				}
 				r := tr.res
+				if r.panicked && tr.nilFn {
+					continue // Do(nil) refused with a panic: not in the statement
+				}
 				if r.panicked {
 					return out, &core.Violation{Signature: "unexpected-panic", Detail: fmt.Sprintf("caller %d's Do on value %d panicked although the invoked function returned normally", i, k)}
 				}
